@@ -738,5 +738,58 @@ seed("c20-caps-shared-array", "C20", "R-no-shared-mutable-globals", "conn.go",
 	}""", """	caps := baseCaps""", "capability list built on a package-level slice with spare capacity",
 more=[("func (c *Conn) Server() *Server {", "var baseCaps = append(make([]string, 0, 16), \"PIPELINING\", \"8BITMIME\", \"ENHANCEDSTATUSCODES\", \"CHUNKING\")\n\nfunc (c *Conn) Server() *Server {")])
 
+seed("c19-partial-long-line", "C19", "R-toolong-no-partial", "conn.go",
+"""	line, err := c.text.ReadLine()
+	if err == nil && c.lineLimitReader.exceeded() {
+		// The buffered reader hands out what it already held of a line and
+		// drops the error when the rest of the line turns out to be too
+		// long: the beginning of such a line must not be taken for a command.
+		return "", ErrTooLongLine
+	}
+	return line, err""", """	return c.text.ReadLine()""", "beginning of an over-long line dispatched")
+seed("c13-panic-under-lock", "C13", "R-no-panic-under-lock", "conn.go",
+"""func (c *Conn) Session() Session {
+	c.locker.Lock()
+	defer c.locker.Unlock()
+	return c.session""", """func (c *Conn) Session() Session {
+	c.locker.Lock()
+	if c.closed && c.session != nil {
+		panic("session used after close")
+	}
+	s := c.session
+	c.locker.Unlock()
+	return s""", "panic between Lock and an explicit Unlock")
+seed("c16-own-write-method", "C16", "R-data-writer", "client.go",
+"""func (d *dataCloser) Close() error {""", """func (d *dataCloser) Write(p []byte) (int, error) {
+	if len(p) > 0 && p[len(p)-1] == '\\r' {
+		return 0, errors.New("smtp: bare CR in message data")
+	}
+	return d.WriteCloser.Write(p)
+}
+
+func (d *dataCloser) Close() error {""", "message filtered one Write call at a time")
+seed("c18-callback-on-client", "C18", "R-rcpts-lifecycle", "client.go",
+"""	return &dataCloser{c: c, WriteCloser: c.text.DotWriter(), statusCb: statusCb}, nil""", """	c.DebugWriter = c.DebugWriter
+	return &dataCloser{c: c, WriteCloser: c.text.DotWriter(), statusCb: c.lastStatusCb(statusCb)}, nil""", "callback routed through the client",
+more=[("func (c *Client) Data() (io.WriteCloser, error) {", "func (c *Client) lastStatusCb(cb func(rcpt string, status *SMTPError)) func(rcpt string, status *SMTPError) {\n	return cb\n}\n\nfunc (c *Client) Data() (io.WriteCloser, error) {")])
+seed("c20-shutdown-falls-through", "C20", "R-close-effects", "server.go",
+"""func (s *Server) Shutdown(ctx context.Context) error {
+	select {
+	case <-s.done:
+		return ErrServerClosed
+	default:
+		close(s.done)
+	}
+
+	var err error""", """func (s *Server) Shutdown(ctx context.Context) error {
+	var err error
+	select {
+	case <-s.done:
+		err = ErrServerClosed
+	default:
+		close(s.done)
+	}
+""", "second Shutdown closes the listeners again and waits")
+
 json.dump(S, open(os.path.join(os.path.dirname(os.path.abspath(__file__)), "bank.json"), "w"), indent=1)
 print(len(S), "seeds")
